@@ -27,6 +27,14 @@ group's values (None included, row order).
 Exact means (op 'exactmean'): mean of big ints (2**53+1, 2**53+3, 1), Fraction, Decimal and float
 columns through aggregate(mean_over) and Vector.mean() against Python's sum/len in the element type -
 exact wherever Python's `/` is exact (always for Fraction), relative 1e-12 otherwise.
+Apply functions that modify their argument (op 'mutapply'): twelve functions on ONE column in one call - eight
+that sort / pop / strip None from / clear / reverse / append to / overwrite the list they are given and four
+that only read it - in rotating orders of the apply dict and their reverses (thorough: every rotation and
+every ordered pair alone), with and without the six built-ins on the same column, the column named or passed
+as a vector: every output column must hold what its function gives on a FRESH plain list of the group's values.
+Equal-but-distinguishable keys (blocks 'eqkeys-*'): 0.0 / -0.0, True / 1 / 1.0, 2 / 2.0 in one or two key
+columns form ONE group (== decides); the key cell shown for a group may be that of any of its rows (the
+statement names no representative), group order and values as everywhere else.
 """
 from relational_common import *  # noqa
 
@@ -43,6 +51,7 @@ def cases(tier, seed):
     yield from precision_cases(tier)
     yield from seq_apply_cases(tier, OP)
     yield from exactmean_cases(tier)
+    yield from mut_apply_cases(tier, OP)
     for label, pool in WHOLE_POOLS:
         for n in range(1, 5):
             for combo in itertools.product(pool, repeat=n):
@@ -71,7 +80,16 @@ def check_groups(pid, op, res, setup, fails, descr):
         return
     # key columns first, one row per distinct key tuple, first-appearance order
     got_keys = [tuple(list(c._underlying)[i] for c in res.cols()[:nk]) for i in range(len(res))]
-    if not rows_same(got_keys, order):
+    if 'eqkeys' in case.get('block', ''):
+        # equal-but-distinguishable key cells: any row of the group may lend its cell (per key column)
+        for g, rows in enumerate(grows):
+            ok = got_keys[g] == order[g] and all(cell_id(got_keys[g][j]) in [cell_id(setup.keys[i][j]) for i in rows] for j in range(nk))
+            if not ok:
+                cls = 'group-order' if sorted(map(repr, got_keys)) == sorted(map(repr, order)) else 'key-columns'
+                fails.append(Fail(f'{pid}:{op}:{cls}', f'{descr}: row {g} of the result shows key {got_keys[g]!r}; the group in first-appearance '
+                                                        f'position {g} has the key cells {[setup.keys[i] for i in rows]!r}', order, got_keys, f'{pid}:{op}:post'))
+                return
+    elif not rows_same(got_keys, order):
         if Counter(map(rkey, got_keys)) == Counter(map(rkey, order)):
             cls = 'group-order'
         else:
@@ -261,6 +279,8 @@ def evaluate(case):
         return eval_seqapply(case)
     if case['op'] == 'exactmean':
         return eval_exactmean(case)
+    if case['op'] == 'mutapply':
+        return eval_mutapply(PID, case)
     if case['op'] == 'repeat':
         return eval_repeat(PID, case)
     if case['op'] == 'precision':
@@ -300,11 +320,15 @@ if __name__ == '__main__':
               'pair of distinct 3-row key vectors and long runs) and stdev of large-offset values vs an exact Fraction reference '
               '(relative 1e-9); plus eight apply functions that use their argument as a list (len / index / slice / reversed / two passes) on '
               'every small table, and mean of big-int / Fraction / Decimal / float columns vs Python sum/len in the element type (exact where '
-              '`/` is exact, else relative 1e-12) through aggregate and Vector.mean. distinct = distinct (nk, mode, rows, '
+              '`/` is exact, else relative 1e-12) through aggregate and Vector.mean; plus twelve apply functions on one column, eight of which modify their argument, in rotating dict '
+              'orders with / without the built-ins (each vs the function on a fresh list), and keys that are equal but distinguishable '
+              '(0.0/-0.0, True/1/1.0, 2/2.0). distinct = distinct (nk, mode, rows, '
               'groups, interleaved, all-None group, None key, aggs, apply) signatures',
          bound=lambda tier: dict(agg_bound(tier), whole_column_pools=[p for _, p in WHOLE_POOLS], whole_column_max_len=4,
                                  repeat_variants=REPEAT_VARIANTS, repeat_key_vectors='{None,0,1}^3 ordered pairs; runs over ^3 and ^4',
                                  precision_families=[f for f, _ in PRECISION_FAMILIES], precision_len=[2, 4 if tier == 'quick' else 5],
                                  seq_apply_functions=SEQ_APPLY_NAMES, seq_apply_tables='1 key <=%d rows, 2 keys <=%d rows, over=[] <=%d rows' % ((3, 2, 3) if tier == 'quick' else (4, 3, 4)),
-                                 exact_mean_families={f: [repr(x) for x in p] for f, p in EXACT_MEAN_FAMILIES}, exact_mean_len=[1, 3 if tier == 'quick' else 4]),
+                                 exact_mean_families={f: [repr(x) for x in p] for f, p in EXACT_MEAN_FAMILIES}, exact_mean_len=[1, 3 if tier == 'quick' else 4],
+                                 mutating_apply_functions=MUT_APPLY_NAMES,
+                                 mutating_apply_orders='2 rotations + reverses per table' if tier == 'quick' else 'all 12 rotations + reverses; every ordered pair alone'),
          nontrivial=nontrivial)
